@@ -90,6 +90,36 @@ def run_one(spec, verify=False, props_filter=None):
         shutil.rmtree(tmp, ignore_errors=True)
 
 
+def run_patch(patch_path, plist):
+    """apply a unified diff to a scratch copy of /repo and run the given properties' rules: {prop: [violation keys]} or None"""
+    from rules import core, engine, roles as roles_mod, props
+    tmp, dst = scratch_copy()
+    try:
+        p = subprocess.run("patch -s -p1 < %s" % patch_path, cwd=dst, shell=True, capture_output=True, text=True)
+        if p.returncode != 0:
+            return None
+        need_ws = any(props.PROPS[q][1] for q in plist if q in props.PROPS)
+        try:
+            crates = core.extract(repo=dst, workspace=need_ws)
+            props.normalise(crates)
+        except SystemExit:
+            return None
+        known = {k["key"] for k in engine.load_known() if k.get("status") == "known"}
+        out = {}
+        for pr in plist:
+            ctx = engine.Ctx(pr, crates)
+            R = roles_mod.Roles(ctx)
+            try:
+                props.PROPS[pr][0](ctx, R)
+            except Exception as e:
+                out[pr] = ["CRASH:%r" % (e,)]
+                continue
+            out[pr] = sorted(o["key"] for o in ctx.obl if o["status"] == "violation" and o["key"] not in known)
+        return out
+    finally:
+        shutil.rmtree(tmp, ignore_errors=True)
+
+
 def main():
     args = sys.argv[1:]
     only = None
